@@ -426,6 +426,13 @@ func drawC13(t *rapid.T) *Case {
 	write(rs...)
 	aux.Pre = []string{tagHalf, tagOpen}
 	aux.HalfID, aux.OpenID, aux.ResetID = x.half, x.open, x.reset
+	if drawBool(t, "idlelong", 15) {
+		// a short idle timeout, and a pause longer than it while two streams are open and a third
+		// has just been closed: the connection is not idle, what follows is served as usual
+		// (wave 12, C13-u: the idle timer re-armed at every stream's end)
+		p.Args = append(p.Args, "-timeout-http-idle", "2s")
+		steps = append(steps, Step{Kind: "sleep", DelayMS: rapid.IntRange(2100, 9000).Draw(t, "idlelongms")})
+	}
 
 	// graceful shutdown: the client announces that it will open no more streams; the server
 	// answers with its own GOAWAY(NO_ERROR) and goes on serving the streams that exist.  Frames
